@@ -68,7 +68,7 @@ TBase == <<
     "now", "(", ")", "-", "1h", " ", "GROUP", " ", "BY", " ", "time", "(", "1m", ")", " ", "fill", "(", "previous", ")", " ", "LIMIT", " ", "1">>
 >>
 
-Families == <<"paren", "paren_where", "call", "subquery", "neg", "fields", "sources", "and_chain", "or_and_chain", "arith_chain",
+Families == <<"fill_paren", "time_paren", "arg_paren", "paren", "paren_where", "call", "subquery", "neg", "fields", "sources", "and_chain", "or_and_chain", "arith_chain",
               "ws_run", "comment_run", "line_comment_run", "long_comment", "long_ident", "long_quoted_ident", "long_string",
               "long_number", "long_duration", "long_regex", "statements", "semicolons", "dims", "segments", "taglist",
               "destinations", "unterminated_string", "unterminated_comment", "open_parens", "dollars", "bad_bytes">>
